@@ -394,6 +394,38 @@ class Repo:
             return False
         return fi.name.startswith('_') or fi.key not in FUNCTIONS
 
+    LOG_METHODS = ('debug', 'info', 'warning', 'warn', 'error', 'exception', 'critical', 'log', 'fatal')
+
+    def is_logging_call(self, call: ast.AST, m: 'Module') -> bool:
+        """a call that only reports: ``logging.<level>(...)``, ``warnings.warn(...)``, ``print(...)`` or ``<logger>.<level>(...)``
+        where <logger> is a module-level name bound to ``logging.getLogger(...)`` (under whatever alias logging was imported),
+        or is named like a logger"""
+        if not isinstance(call, ast.Call):
+            return False
+        fn = call.func
+        if isinstance(fn, ast.Name):
+            return fn.id == 'print'
+        if not isinstance(fn, ast.Attribute):
+            return False
+        root = fn.value
+        while isinstance(root, ast.Attribute):
+            root = root.value
+        if not isinstance(root, ast.Name):
+            # logging.getLogger(__name__).debug(...)
+            return isinstance(fn.value, ast.Call) and ast.unparse(fn.value.func).endswith('getLogger') and fn.attr in self.LOG_METHODS
+        name = root.id
+        imp = m.imports.get(name)
+        if isinstance(imp, ExtRef) and imp.path in ('logging', 'warnings'):
+            return True
+        if fn.attr in self.LOG_METHODS and isinstance(fn.value, ast.Name):
+            for v in m.assigns.get(name, []):
+                if isinstance(v, ast.Call) and ast.unparse(v.func).endswith('getLogger'):
+                    return True
+            import re as _re
+            if _re.match(r'(?i)^_*(log|logger|logging|warnings)\w*$', name):
+                return True
+        return False
+
     def is_helper_class(self, c: 'ClassInfo') -> bool:
         """a class that did not exist when the rule instances were confirmed (oracles/inventory.py)"""
         from .oracles.inventory import CLASSES
